@@ -400,8 +400,9 @@ def rule_gadgets(repo, rule):
     for name in ("__lt__", "__le__", "__gt__", "__ge__", "__eq__", "__ne__"):
         f = lc.methods[name]
         rets = [n for n in ast.walk(f.node) if isinstance(n, ast.Return)]
-        ok = rets and isinstance(rets[0].value, ast.Call) and isinstance(rets[0].value.func, ast.Attribute) and \
-            rets[0].value.func.attr in ("check_positive", "check_zero", "check_nonzero")
+        rets = [r for r in rets if r.value is not None and norm(r.value) != "NotImplemented"]      # deferral to another class
+        ok = rets and all(isinstance(r.value, ast.Call) and isinstance(r.value.func, ast.Attribute) and
+                          r.value.func.attr in ("check_positive", "check_zero", "check_nonzero") for r in rets)
         if ok:
             rule.ok(f.loc(), f.fq, norm(rets[0].value), "comparison result comes from a constrained test gadget")
         else:
@@ -410,11 +411,12 @@ def rule_gadgets(repo, rule):
     # ------------------------------------------------------------ bitwise
     for name, tt in (("__and__", (0, 0, 0, 1)), ("__or__", (0, 1, 1, 1)), ("__xor__", (0, 1, 1, 0))):
         f = lc.methods[name]
-        arm = [n for n in ast.walk(f.node) if isinstance(n, ast.If) and norm(n.test) == "isinstance(%s, LinComb)" % f.params[1]]
-        if not arm:
+        from ..flatten import arm_stmts
+        body = arm_stmts(f.node, "isinstance(%s, LinComb)" % f.params[1])
+        if not body:
             rule.violation(f.loc(), f.fq, name, "no secret/secret arm", "bitwise/%s/arm" % name)
             continue
-        body = arm[0].body
+        arm = [body[0]]
         tb = [a for a in body if isinstance(a, ast.Assign) and isinstance(a.value, ast.Call) and norm(a.value.func).endswith(".to_bits")]
         comp = [a for a in body if isinstance(a, ast.Assign) and isinstance(a.value, ast.ListComp)]
         rets = [n for n in body if isinstance(n, ast.Return)]
